@@ -34,7 +34,9 @@ def footer(size, disk_type, data_offset, length=512, original_size=None):
     for even sector counts, larger for odd ones; only the current size describes the disk."""
     if original_size is None:
         original_size = max(512, size // 1024 * 512) if (size // 512) % 2 == 0 else size + 0x7700
-    raw = struct.pack(FOOTER, b"conectix", 2, 0x00010000, data_offset, 0x2B3C4D5E, b"vrf ", 0x00010000, b"Wi2k", original_size,
+    # features: bit 1 is reserved and always set; bit 0 (Temporary) is a documented flag that says nothing about the layout
+    features = 3 if (size // 512) % 3 == 0 else 2
+    raw = struct.pack(FOOTER, b"conectix", features, 0x00010000, data_offset, 0x2B3C4D5E, b"vrf ", 0x00010000, b"Wi2k", original_size,
                       size, 0x03FF103F, disk_type, 0, b"\x5a" * 16, 0).ljust(512, b"\0")
     raw = raw[:64] + struct.pack(">I", _checksum(raw, 64)) + raw[68:]
     return raw[:length]
